@@ -1,6 +1,6 @@
 (* C13 — decoding is prefix-local: records can be read from a stream or list. *)
-Require Import Enr.Bytes Enr.Consts Enr.Rlp Enr.SortedMap Enr.Keccak Enr.Record.
-Require Import EnrProofs.Thm_Prefix EnrProofs.Thm_Decode.
+Require Import Enr.Bytes Enr.Consts Enr.Rlp Enr.SortedMap Enr.Keccak Enr.Record Enr.Update Enr.Spec.
+Require Import EnrProofs.Thm_Prefix EnrProofs.Thm_Decode EnrProofs.Thm_More.
 Open Scope N_scope.
 
 (* same outcome as for the item alone, whatever follows; on success the remainder is what followed *)
@@ -19,3 +19,16 @@ Theorem decode_advance : forall (c : crypto) kt b r rest,
   bytes_ok b -> decode c kt b = Ok (r, rest) -> lenN b = lenN (encode r) + lenN rest.
 Proof. exact Thm_Decode.decode_advance. Qed.
 Print Assumptions decode_advance.
+
+(* an RLP list of records decodes to the same records one would get individually *)
+Theorem decode_vec_ok : forall (c : crypto) kt rs rest,
+  Forall (Valid c kt) rs -> lenN (flat_map encode rs) < 2 ^ 64 ->
+  decode_vec c kt (enc_list (flat_map encode rs) ++ rest) = Ok (rs, rest).
+Proof. exact Thm_More.decode_vec_ok. Qed.
+Print Assumptions decode_vec_ok.
+
+(* consecutive records in a stream: the first is returned, the buffer is left at the next *)
+Theorem decode_stream : forall (c : crypto) kt r rs rest,
+  Valid c kt r -> decode c kt (encode r ++ flat_map encode rs ++ rest) = Ok (r, flat_map encode rs ++ rest).
+Proof. exact Thm_More.decode_stream. Qed.
+Print Assumptions decode_stream.
